@@ -2253,7 +2253,9 @@ def _explain_clash(m, srcs):
     if m1:
         # (the class named in the error may have inherited the field from the class with the clash)
         same = [c for c in clashes if c[1] == m1.group(2)]
-        clashes = [c for c in same if c[0] == m1.group(1)] or same
+        # with slots the hint that breaks belongs to ANOTHER field of the class (its type `T.AB` finds the slot member
+        # `AB` of the clashing field): fall back to the clashes of the class named in the error
+        clashes = [c for c in same if c[0] == m1.group(1)] or same or [c for c in clashes if c[0] == m1.group(1)]
     if not clashes:
         return m
     if m1:  # (the type in the message carries the scratch package name: leave it out)
